@@ -2080,3 +2080,292 @@ func runC03Round4(c *Ctx) {
 		c.Undecided("innermost sender's Send", "-", "not found")
 	}
 }
+
+// ---------- C20.R14: a fatal error reported while the collector is shutting down cannot block ----------
+//
+// Fatal component errors are sent on the collector's async error channel from inside the status reporter's critical
+// section (reporter.ReportStatus → fsm → Host.NotifyComponentStatusChange). The run loop is the only receiver, and it
+// stops receiving the moment it decides to shut down or reload. A second fatal error (three instances of one shared
+// receiver report three) or one that arrives during the shutdown would then block for ever with the reporter's lock
+// held – and graph.ShutdownAll needs that lock to report `Stopping`. So either the send cannot block (select with
+// default / its own goroutine), or every service shutdown in the collector runs while something receives from the channel.
+func runC20FatalDrain(c *Ctx) {
+	p := c.P
+	c.Rule("R14", "GO", "a fatal component error reported while the collector shuts the service down (a second one, or one caused by the shutdown) cannot block under the status reporter's lock: either the send on the async error channel is non-blocking / in a goroutine of its own, or every call of service.Shutdown in the collector is made while a goroutine started before it receives from that channel", 1)
+	gpk := p.Pkg("service/internal/graph")
+	opk := p.Pkg("otelcol")
+	if gpk == nil || opk == nil {
+		c.Anchor("service/internal/graph, otelcol")
+		return
+	}
+	// (i) the send
+	sendOK, nSend := true, 0
+	for _, fn := range p.AllSrcFuncs(gpk) {
+		allInstrs(fn, func(in ssa.Instruction) {
+			isErrChan := func(v ssa.Value) bool {
+				for x := range backSlice(v) {
+					if fa, ok := x.(*ssa.FieldAddr); ok && derefStruct(fa.X.Type()) != nil && derefStruct(fa.X.Type()).Field(fa.Field).Name() == "AsyncErrorChannel" {
+						return true
+					}
+				}
+				return false
+			}
+			switch x := in.(type) {
+			case *ssa.Send:
+				if isErrChan(x.Chan) {
+					nSend++
+					// blocking send: fine only in a goroutine of its own
+					if fn.Parent() == nil || !startedByGo(fn) {
+						sendOK = false
+					}
+				}
+			case *ssa.Select:
+				for _, st := range x.States {
+					if st.Dir == types.SendOnly && isErrChan(st.Chan) {
+						nSend++
+						if x.Blocking {
+							sendOK = false
+						}
+					}
+				}
+			}
+		})
+	}
+	if nSend == 0 {
+		c.Undecided("send on the async error channel", "-", "not found in service/internal/graph")
+		return
+	}
+	if sendOK {
+		c.OK("the send on the async error channel cannot block", "-", "non-blocking select or own goroutine")
+		return
+	}
+	// (ii) every service.Shutdown in otelcol is covered by a receiver
+	n := 0
+	for _, fn := range p.AllSrcFuncs(opk) {
+		for _, ci := range calls(fn, func(ci ssa.CallInstruction) bool {
+			f := calleeOf(ci)
+			return f != nil && f.FullName() == "(*"+modPrefix+"/service.Service).Shutdown"
+		}) {
+			n++
+			covered := false
+			allInstrs(fn, func(in ssa.Instruction) {
+				g, ok := in.(*ssa.Go)
+				if !ok || !instrDominates(g, ci.(ssa.Instruction)) {
+					return
+				}
+				var body *ssa.Function
+				switch v := g.Call.Value.(type) {
+				case *ssa.MakeClosure:
+					body, _ = v.Fn.(*ssa.Function)
+				case *ssa.Function:
+					body = v
+				}
+				if body == nil {
+					return
+				}
+				allInstrs(body, func(bi ssa.Instruction) {
+					recvFrom := func(v ssa.Value) bool {
+						for x := range backSlice(v) {
+							if fa, ok := x.(*ssa.FieldAddr); ok && derefStruct(fa.X.Type()) != nil && derefStruct(fa.X.Type()).Field(fa.Field).Name() == "asyncErrorChannel" {
+								return true
+							}
+						}
+						return false
+					}
+					switch y := bi.(type) {
+					case *ssa.UnOp:
+						if y.Op == token.ARROW && recvFrom(y.X) {
+							covered = true
+						}
+					case *ssa.Select:
+						for _, st := range y.States {
+							if st.Dir == types.RecvOnly && recvFrom(st.Chan) {
+								covered = true
+							}
+						}
+					}
+				})
+			})
+			c.Check(covered, fmt.Sprintf("service shutdown #%d in %s runs while the async error channel is received", n, fnName(fn)), p.Pos(ci.Pos()), "a goroutine started before the call receives from the channel", "nothing receives from the async error channel while the service is shut down, and the send in Host.NotifyComponentStatusChange blocks under the status reporter's lock: when the three instances of a shared receiver (or two components) fail fatally, the first error makes the run loop shut down, the second report blocks for ever holding the lock, graph.ShutdownAll waits for the lock – Run never returns and the collector stays in Closing")
+		}
+	}
+	if n == 0 {
+		c.Undecided("calls of service.Shutdown in otelcol", "-", "none found")
+	}
+}
+
+// startedByGo: the closure is the callee of a `go` statement in its parent.
+func startedByGo(cl *ssa.Function) bool {
+	par := cl.Parent()
+	if par == nil {
+		return false
+	}
+	hit := false
+	allInstrs(par, func(in ssa.Instruction) {
+		if g, ok := in.(*ssa.Go); ok {
+			switch v := g.Call.Value.(type) {
+			case *ssa.MakeClosure:
+				if v.Fn == ssa.Value(cl) {
+					hit = true
+				}
+			case *ssa.Function:
+				if v == cl {
+					hit = true
+				}
+			}
+		}
+	})
+	return hit
+}
+
+// ---------- wrapper-aware "shuts the service down" ----------
+var (
+	svcShutProg     *Prog
+	svcShutWrappers map[*types.Func]bool
+)
+
+// isServiceShutdownFn: (*service.Service).Shutdown itself, or a function of package otelcol every path of which calls it
+// (the collector's helper that shuts the service down while it keeps receiving asynchronous errors).
+func isServiceShutdownFn(p *Prog, f *types.Func) bool {
+	if f == nil {
+		return false
+	}
+	if isMethod(f, pkgService, "Service", "Shutdown") {
+		return true
+	}
+	if svcShutProg != p {
+		svcShutProg = p
+		svcShutWrappers = map[*types.Func]bool{}
+		if opk := p.ByPath[pkgOtelcol]; opk != nil {
+			for _, fn := range p.AllSrcFuncs(opk) {
+				if fn.Parent() != nil || fn.Object() == nil {
+					continue
+				}
+				sd := callsNamed(fn, func(g *types.Func) bool { return isMethod(g, pkgService, "Service", "Shutdown") })
+				if len(sd) != 1 {
+					continue
+				}
+				var rets []ssa.Instruction
+				for _, r := range returnsOf(fn) {
+					rets = append(rets, r)
+				}
+				// a pure wrapper: the call is unconditional and the function does nothing else to the collector's life cycle
+				// (no state change, no provider shutdown, no service creation)
+				other := callsNamed(fn, func(g *types.Func) bool {
+					return g.Pkg() != nil && g.Pkg().Path() == pkgOtelcol && (g.Name() == "setCollectorState" || g.Name() == "setupConfigurationComponents")
+				})
+				if ok, _ := mustPassThrough(fn, nil, map[ssa.Instruction]bool{sd[0].(ssa.Instruction): true}, rets); ok && len(other) == 0 {
+					if tf, isF := fn.Object().(*types.Func); isF {
+						svcShutWrappers[tf] = true
+					}
+				}
+			}
+		}
+	}
+	return svcShutWrappers[f]
+}
+
+// ---------- C18.R13: a ticker that Shutdown stops is armed again by the Start that starts its reader ----------
+func runC18TickerRearm(c *Ctx) {
+	p := c.P
+	c.Rule("R13", "PAIR", "the ticker that paces the shared checker is stopped by the last user's Shutdown; the Start that launches the checker goroutine therefore arms it (Reset, or a new ticker stored into the field) before the goroutine is started – otherwise a limiter whose users were all shut down and that is started again (start/shutdown of the sharing processors interleaved) never checks memory again and keeps its last verdict for ever", 1)
+	pk := p.Pkg("internal/memorylimiter")
+	if pk == nil {
+		c.Anchor("internal/memorylimiter")
+		return
+	}
+	tickerField := func(v ssa.Value) (int, *types.Named) {
+		for x := range backSlice(v) {
+			if fa, ok := x.(*ssa.FieldAddr); ok {
+				if pt, ok := derefStruct(fa.X.Type()).Field(fa.Field).Type().(*types.Pointer); ok && typeIs(pt.Elem(), "time", "Ticker") {
+					return fa.Field, namedOf(fa.X.Type())
+				}
+			}
+		}
+		return -1, nil
+	}
+	// fields whose ticker is stopped somewhere
+	type key struct {
+		T *types.Named
+		F int
+	}
+	stopped := map[key]bool{}
+	for _, fn := range p.AllSrcFuncs(pk) {
+		for _, ci := range callsNamed(fn, func(f *types.Func) bool { return f.FullName() == "(*time.Ticker).Stop" }) {
+			if f, T := tickerField(ci.Common().Args[0]); T != nil {
+				stopped[key{T, f}] = true
+			}
+		}
+	}
+	n := 0
+	for _, fn := range p.AllSrcFuncs(pk) {
+		if fn.Parent() != nil {
+			continue
+		}
+		allInstrs(fn, func(in ssa.Instruction) {
+			g, ok := in.(*ssa.Go)
+			if !ok {
+				return
+			}
+			var body *ssa.Function
+			switch v := g.Call.Value.(type) {
+			case *ssa.MakeClosure:
+				body, _ = v.Fn.(*ssa.Function)
+			case *ssa.Function:
+				body = v
+			}
+			if body == nil {
+				return
+			}
+			// the goroutine receives from a stopped-somewhere ticker's channel
+			var k key
+			found := false
+			allInstrs(body, func(bi ssa.Instruction) {
+				var chans []ssa.Value
+				switch y := bi.(type) {
+				case *ssa.UnOp:
+					if y.Op == token.ARROW {
+						chans = append(chans, y.X)
+					}
+				case *ssa.Select:
+					for _, st := range y.States {
+						if st.Dir == types.RecvOnly {
+							chans = append(chans, st.Chan)
+						}
+					}
+				}
+				for _, ch := range chans {
+					if f, T := tickerField(ch); T != nil && stopped[key{T, f}] {
+						k, found = key{T, f}, true
+					}
+				}
+			})
+			if !found {
+				return
+			}
+			n++
+			armed := false
+			allInstrs(fn, func(x ssa.Instruction) {
+				if !instrDominates(x, g) {
+					return
+				}
+				switch y := x.(type) {
+				case ssa.CallInstruction:
+					if f := calleeOf(y); f != nil && f.FullName() == "(*time.Ticker).Reset" {
+						if ff, T := tickerField(y.Common().Args[0]); T == k.T && ff == k.F {
+							armed = true
+						}
+					}
+				case *ssa.Store:
+					if fa, ok := y.Addr.(*ssa.FieldAddr); ok && namedOf(fa.X.Type()) == k.T && fa.Field == k.F {
+						armed = true
+					}
+				}
+			})
+			c.Check(armed, "ticker read by the goroutine started in "+fnName(fn)+" is armed there", p.Pos(g.Pos()), "Reset / new ticker before the go statement", "the goroutine waits on a ticker that the last Shutdown stopped and nothing arms again: start T, shutdown T, start M on the limiter they share – no memory check ever runs for M, the limiter keeps the verdict of the moment T was shut down (refuses for ever, or never refuses)")
+		})
+	}
+	if n == 0 {
+		c.Undecided("goroutine paced by a ticker that Shutdown stops", "-", "not found")
+	}
+}
